@@ -96,7 +96,8 @@ def Segment.receive (cfg : Cfg) (s : Segment) (h : Hdr) (body : List UInt8) :
   -- (9) header.fragment_offset + (header.total_length - header.ihl as u16 * 4 + 7) / 8
   if h.totalLength < h.ihl * 4 then .error "panic:sub-overflow:data_length" else
   let dl := h.totalLength - h.ihl * 4
-  if 65535 < dl + 7 then .error "panic:add-overflow:data_length_round" else
+  -- (the `+ 7` and the `fragment_offset +` additions sit on one source line: one panic class)
+  if 65535 < dl + 7 then .error "panic:add-overflow:block_end" else
   if 65535 < h.fragOffset + (dl + 7) / 8 then .error "panic:add-overflow:block_end" else
   let blocks := setRange s.blocks h.fragOffset (h.fragOffset + (dl + 7) / 8)
   -- (10) IF MF = 0 THEN TDL <- TL-(IHL*4)+(FO*8)
